@@ -71,19 +71,31 @@ def norm_key(key):
         return None
 
 
-def gen_pair(rng, E, fast, directed=None):
+def gen_pair(rng, E, fast, directed=None, force=None):
     """directed = (trading timeframe, data-route timeframe, cut minute): a configuration suggested by a read outside the prefix"""
     syms = ['BTC-USDT'] if rng.random() < 0.6 else ['BTC-USDT', 'ETH-USDT']
+    if force is not None:
+        syms = ['BTC-USDT', 'ETH-USDT'][:force['symbols']]
     tfs = {s: rng.choice(['1m', '3m', '5m', '15m']) for s in syms}
+    if force is not None:
+        tfs = {s: force['tf'] for s in syms}
     data = []
     for s in syms:
         for tf in rng.choice([[], [], ['15m'], ['30m'], ['5m', '1h'], ['15m', '30m']]):
             if tf != tfs[s]: data.append((s, tf))
+    # a second symbol that is only a data route: its candles are readable by the first symbol's strategy at every hook, but nothing trades on it
+    data_only = None
+    if len(syms) == 2 and (rng.random() < 0.5 if force is None else force['data_only']):
+        data_only = syms[1]
+        data = [d for d in data if d[0] != data_only] + [(data_only, tf) for tf in rng.choice([['5m'], ['15m'], ['3m', '15m'], [tfs[syms[0]]]])]
     n = rng.choice([90, 150, 180])
     unit = 1
     for s in syms:
         unit = unit * TFM[tfs[s]] // math.gcd(unit, TFM[tfs[s]])
     t = rng.randrange(1, n // unit) * unit if fast else rng.randrange(1, n)
+    if force is not None and not fast:
+        # cut on the last minute of a trading candle: whatever happens inside that candle before its last minute is observable before the cut
+        t = min(n - 2, rng.randrange(1, n // unit) * unit + unit - 1)
     if directed is not None:
         syms = ['BTC-USDT']
         tfs = {'BTC-USDT': directed[0]}
@@ -106,14 +118,16 @@ def gen_pair(rng, E, fast, directed=None):
             warm['candles'][s] = w
     scripts = {}
     for s in syms:
+        if s == data_only:
+            continue
         sc = E.gen_script(rng, rng.randrange(1 << 30))
         sc['liquidate_every'] = rng.choice([0, 0, 7])
         scripts[s] = sc
     typ = rng.choice(['futures', 'futures', 'spot'])
     if typ == 'spot':
-        for s in syms: scripts[s]['side'] = 'long'
+        for s in scripts: scripts[s]['side'] = 'long'
     kw = dict(exchange_type=typ, leverage=rng.choice([1, 2, 5]), fee=rng.choice([0.0, 0.001]), fast=fast)
-    return {'routes': [(s, tfs[s]) for s in syms], 'data_routes': data, 'a': a, 'b': b, 't': t, 'warm': warm, 'scripts': scripts, 'kw': kw}
+    return {'routes': [(s, tfs[s]) for s in syms if s != data_only], 'data_routes': data, 'a': a, 'b': b, 't': t, 'warm': warm, 'scripts': scripts, 'kw': kw}
 
 
 def observable(trace, cutoff):
@@ -207,6 +221,30 @@ def run(tier, seed, replay=None):
                     break
             if diffs:
                 break
+        if not diffs:
+            # no read outside the prefix could be located in the lists (or they could not be regenerated): a fixed battery of the configurations in
+            # which a peek is observable - entries resting inside trading candles longer than a minute, a second symbol that is only read, both simulators
+            for force in [dict(symbols=2, data_only=True, tf='5m'), dict(symbols=2, data_only=True, tf='3m'), dict(symbols=2, data_only=False, tf='5m'),
+                          dict(symbols=1, data_only=False, tf='5m'), dict(symbols=1, data_only=False, tf='15m')]:
+                for fast_ in (False, True):
+                    for _ in range(4):
+                        p = gen_pair(rng, E, fast=fast_, force=force)
+                        for sc_ in p['scripts'].values():
+                            sc_['raise_at'] = None; sc_['entry_every'] = 2; sc_['offs'] = [-1, 0, 1]
+                        oo = [E.run_session(p[side], p['routes'], data_routes=p['data_routes'], scripts=p['scripts'], warmup=p['warm'], with_vids=True, **p['kw']) for side in ('a', 'b')]
+                        if oo[0]['error'] or oo[1]['error']:
+                            continue
+                        cutoff = E.T0 + p['t'] * E.M
+                        oa, ob = observable(oo[0]['trace'], cutoff), observable(oo[1]['trace'], cutoff)
+                        if oa != ob:
+                            idx = next((i_ for i_ in range(min(len(oa), len(ob))) if oa[i_] != ob[i_]), min(len(oa), len(ob)))
+                            diffs.append({'cut_minute': p['t'], 'routes': p['routes'], 'data_routes': p['data_routes'], 'simulator': 'fast' if fast_ else 'normal',
+                                          'warm_up': bool(p['warm']), 'first_difference_index': idx, 'run_a': oa[idx] if idx < len(oa) else None,
+                                          'run_b': ob[idx] if idx < len(ob) else None, 'scripts': p['scripts'], 'candles_a': p['a'], 'candles_b': p['b'],
+                                          'from_the_fixed_battery': force, **{k_: v for k_, v in p['kw'].items()}})
+                            break
+                    if diffs: break
+                if diffs: break
     odd = [m for m, c in zip(acc_meta, acc_cases) if any(x is None for x in c[4])]
 
     def aterm(c):
